@@ -12,6 +12,9 @@ using Vec = ReusableVector<uint64_t, Alloc>;
 #define VF_K 3
 #endif
 #define VF_MAXN 6
+#ifndef VF_OPMASK
+#define VF_OPMASK 0x7f      // ops 0..6; scenarios that exercise insert(pos,n,v) / erase(first,last) set bits 7 / 8
+#endif
 Res* res; Vec* v;
 uint64_t ref[VF_MAXN + 2]; uint64_t rn; uint64_t rcons;     // rcons: instances that must exist = largest size reached so far
 extern "C" void vf_init() {
@@ -34,7 +37,7 @@ static void same() {
 extern "C" void vf_thread_0() {
   uint64_t maxcap = v->capacity(); rcons = v->constructed_size();
   for (int step = 0; step < VF_K; ++step) {
-    uint64_t op = vf_nondet64(); vf_assume(op < 7);
+    uint64_t op = vf_nondet64(); vf_assume(op < 9 && ((VF_OPMASK >> op) & 1));
     uint64_t a = vf_nondet64(); uint64_t val = 100 + step;
     uint64_t cap_before = v->capacity();
     if (op == 0) { vf_assume(rn < VF_MAXN); v->push_back(val); ref[rn] = val; rn++; }
@@ -45,6 +48,17 @@ extern "C" void vf_thread_0() {
                         for (uint64_t i = a; i + 1 < rn && i + 1 <= VF_MAXN; ++i) ref[i] = ref[i + 1]; rn--; }
     else if (op == 4) { vf_assume(a <= VF_MAXN); v->resize(a, val); for (uint64_t i = rn; i < a && i < VF_MAXN; ++i) ref[i] = val; rn = a; }
     else if (op == 5) { v->clear(); rn = 0; vf_check(v->capacity() == cap_before, 4); }         // logical clear keeps capacity
+    else if (op == 7) {        // insert(pos, count, value): count 0..3 elements in front of a (possibly empty) tail
+      uint64_t cnt = vf_nondet64(); vf_assume(cnt <= 3 && rn + cnt <= VF_MAXN && a <= rn);
+      auto it = v->insert(v->begin() + a, cnt, val); vf_check(it == v->begin() + a, 3);
+      for (uint64_t i = rn + cnt; i > a + cnt && i <= VF_MAXN; --i) ref[i - 1] = ref[i - 1 - cnt];
+      for (uint64_t i = a; i < a + cnt && i < VF_MAXN; ++i) ref[i] = val;
+      rn += cnt; }
+    else if (op == 8) {        // erase(first, last)
+      uint64_t b = vf_nondet64(); vf_assume(a <= b && b <= rn);
+      auto it = v->erase(v->begin() + a, v->begin() + b); vf_check(it == v->begin() + a, 3);
+      for (uint64_t i = a; i + (b - a) < rn && i < VF_MAXN; ++i) ref[i] = ref[i + (b - a) < VF_MAXN ? i + (b - a) : 0];
+      rn -= b - a; }
     else { vf_assume(a <= VF_MAXN); v->assign(a, val); for (uint64_t i = 0; i < a && i < VF_MAXN; ++i) ref[i] = val; rn = a; }
     vf_check(v->capacity() >= cap_before, 4);                                                    // capacity never shrinks
     same();
